@@ -101,6 +101,7 @@ fn run_one(case: &str) -> String {
 
 pub fn gen(ctx: &Ctx) {
     let mut rng = Rng::new(ctx.seed, "printer");
+    let mut hist_no: u64 = ctx.seed;
     let mut out = Out::new(&ctx.dir, "printer");
     out.rule = "the four response entry points and write_request: status 100..999 with CR/LF-free reasons (incl. 200 with a custom reason), 0..4 user headers, one case in four with a header history (framing declared, then removed / replaced / reset; chunked declared twice or in other spellings; a user-supplied Transfer-Encoding other than chunked, alone, with chunked, replaced or removed), \
                 {nothing, content-length, transfer-encoding: chunked} declared, body lengths dense around 0, 2047/2048/2049, 8191/8192/8193 (thorough: 131071..131073, 300000), \
@@ -124,12 +125,14 @@ pub fn gen(ctx: &Ctx) {
                     let val = *rng.pick(&["v", "text/plain; charset=utf-8", "", "a b\tc", "1, 2, 3"]);
                     fields.push(format!("{}:{}", hex(name.as_bytes()), hex(val.as_bytes())));
                 }
-                // one case in four builds its header set through a history: framing fields declared and then withdrawn or replaced
-                if rng.chance(1, 4) {
+                // one case in three builds its header set through a history: framing fields declared and then withdrawn or replaced
+                if rng.chance(1, 3) {
                     let wrong = len + 1 + rng.below(40) as usize;
                     let cl = |n: usize| format!("{}:{}", hex(b"content-length"), hex(n.to_string().as_bytes()));
                     let te = |v: &[u8]| format!("{}:{}", hex(b"Transfer-Encoding"), hex(v));
-                    let hist: Vec<String> = match rng.below(15) {
+                    // (the 15 kinds of history in turn, so that every one occurs with every entry point in every run)
+                    hist_no += 1;
+                    let hist: Vec<String> = match (hist_no + rng.below(2) * 15) % 15 {
                         // chunked declared more than once / in another spelling: still exactly one framing field (F36)
                         8 => vec!["!T".into(), "!T".into()],
                         9 => vec![te(b"chunked"), "!T".into()],
